@@ -109,6 +109,14 @@ def make_image(rnd, ns, nf, kind):
     # ranks: all values distinct and exactly representable in float32
     ranks = np.empty(ns * nf, np.float32)
     ranks[np.argsort(base.ravel(), kind="stable")] = np.arange(1, ns * nf + 1, dtype=np.float32)
+    # any image: positive, mixed sign with an exact zero (background subtracted data), all negative, large magnitudes
+    mode = rnd.choice(["pos", "pos", "mixed", "neg", "big"])
+    if mode == "mixed":
+        ranks -= float(ns * nf // 2)
+    elif mode == "neg":
+        ranks -= float(ns * nf + 3)
+    elif mode == "big":
+        ranks = (ranks - float(ns * nf // 2)) * np.float32(2.0 ** 40)
     return ranks.reshape(ns, nf)
 
 
@@ -240,7 +248,8 @@ class C13(object):
                     # same partition as the dense kernel's on the same pixels (absent pixels lower than all present)
                     r0, c0 = int(row.min()), int(col.min())
                     hs, ws = int(row.max()) - r0 + 3, int(col.max()) - c0 + 3
-                    dense = -1.0 - np.arange(hs * ws, dtype=np.float32).reshape(hs, ws)
+                    lowest = float(val.min())
+                    dense = (lowest - (1.0 + np.arange(hs * ws)) * max(1.0, abs(lowest) * 2.0 ** -20)).astype(np.float32).reshape(hs, ws)
                     dense[row.astype(int) - r0 + 1, col.astype(int) - c0 + 1] = val
                     dref, _ = ref_dense(dense)
                     dl = dref[row.astype(int) - r0 + 1, col.astype(int) - c0 + 1]
